@@ -1052,6 +1052,15 @@ def _history_native(variant):
                     {'path': '/', 'kind': 'Dir', 'mode': 0o755, 'mtime': [1, 0], 'hunk': 0},
                     {'path': '/a', 'kind': 'File', 'size': 8, 'class': 4, 'mode': 0o644, 'mtime': [5, 0], 'hunk': 0},
                     {'path': '/b', 'kind': 'File', 'size': 9, 'class': 2, 'mode': 0o600, 'mtime': [3, 0], 'hunk': 1}]}]
+        elif variant == 'chain':
+            bands = [{'band': 0, 'closed': True, 'entries': [
+                {'path': '/', 'kind': 'Dir', 'mode': 0o755, 'mtime': [1, 0]},
+                {'path': '/a', 'kind': 'File', 'size': 7, 'class': 1, 'mode': 0o644, 'mtime': [2, 0]},
+                {'path': '/z', 'kind': 'File', 'size': 8, 'class': 4, 'mode': 0o644, 'mtime': [4, 0]}]},
+                {'band': 1, 'closed': False, 'entries': [
+                    {'path': '/', 'kind': 'Dir', 'mode': 0o755, 'mtime': [1, 0]},
+                    {'path': '/a', 'kind': 'File', 'size': 9, 'class': 2, 'mode': 0o644, 'mtime': [5, 0]}]},
+                {'band': 2, 'closed': False, 'entries': [{'path': '/', 'kind': 'Dir', 'mode': 0o755, 'mtime': [1, 0]}]}]
         elif variant == 'subdir':
             bands = [{'band': 0, 'closed': True, 'entries': [
                 {'path': '/', 'kind': 'Dir', 'mode': 0o755, 'mtime': [1, 0], 'hunk': 0},
@@ -1076,7 +1085,7 @@ def _history_native(variant):
         path = b.get('path') or ''
         if path.startswith('d/'):
             # which block: by hash id order of creation (A, B | A, Z, C)
-            order = ['/d/f'] if variant == 'subdir' else ['/a', '/b'] if variant == 'single' else ['/m#0', '/m#1', '/a'] if variant == 'multi' else \
+            order = ['/a', '/z', '/a@1'] if variant == 'chain' else ['/d/f'] if variant == 'subdir' else ['/a', '/b'] if variant == 'single' else ['/m#0', '/m#1', '/a'] if variant == 'multi' else \
                 ['/a', '/b', '/c', '/a@1'] if variant == 'deep' else ['/a', '/z', '/c']
             import re as _re
             m = _re.match(r'd/\w+/[0-9a-f]{3}([0-9a-f]{125})$', path)
@@ -1111,7 +1120,15 @@ def _history_native(variant):
                 ab = out.get('after_backup') or {}
                 return bool(ab) and (not ab.get('ok') or bool(ab.get('stat_errors')) or bool(ab.get('errors')) or not ab.get('restore_ok')
                                      or bool(ab.get('restore_errors')) or bool(ab.get('mismatches')))
-            return not out.get('errors') or any('altered bytes' in p or 'untouched' in p for p in b.get('problems', []))
+            # files that the model says are not restored although nothing of theirs was damaged: natively they must be missing
+            # from the destination too (or come back with wrong bytes)
+            import re as _re2
+            named = [m_.group(1) for p in b.get('problems', []) for m_ in [_re2.match(r'^(/\S+?)(?: of band \d+ \(index hunk|, which version)', p)] if m_]
+            if named:
+                restored = {v['path'] for v in out.get('inside_after') or []}
+                wrong = {str(x) for x in (out.get('content_mismatches') or [])}
+                return any(('/dest' + q) not in restored or any(q in w for w in wrong) for q in named)
+            return not out.get('errors') or any('altered bytes' in p for p in b.get('problems', []))
         return sc, judge
     return f
 
@@ -1160,11 +1177,11 @@ def check_C10(rep, prog, tier):
     for ap in ['', 'a', '/..', '/a//b']:
         _damage_obligation(rep, prog, 'decoded apath %r: restore does not panic or escape' % ap, D.make_decoded(prog, 'restore', ap), dl, 'C10', _decoded_native)
     _damage_obligation(rep, prog, 'unparseable band_format_version: listing does not panic', D.make_decoded(prog, 'list', 'valid', 'x.y'), dl, 'C10', _decoded_native)
-    for variant in ['single', 'two', 'multi', 'subdir'] + (['deep'] if tier != 'quick' else []):
+    for variant in ['single', 'two', 'multi', 'subdir', 'chain'] + (['deep'] if tier != 'quick' else []):
         for op in ['restore', 'backup']:
-            if variant == 'subdir' and op == 'backup':
+            if variant in ('subdir', 'chain') and op == 'backup':
                 continue
-            _damage_obligation(rep, prog, 'one damaged file (%s history): %s does not panic, intact files are exact, lost files are reported' % ({'single': 'single-version', 'two': 'two-version', 'multi': 'two-block-file', 'deep': 'three-hunk band under an unfinished band', 'subdir': 'directory and its file in different hunks'}[variant], op),
+            _damage_obligation(rep, prog, 'one damaged file (%s history): %s does not panic, intact files are exact, lost files are reported' % ({'single': 'single-version', 'two': 'two-version', 'multi': 'two-block-file', 'deep': 'three-hunk band under an unfinished band', 'subdir': 'directory and its file in different hunks', 'chain': 'two unfinished versions over a finished one'}[variant], op),
                                D.make_contained(prog, op, variant), dl, 'C10', _history_native(variant))
 
 
